@@ -1624,6 +1624,14 @@ class ClientServerConnection(ConnectionBase):
     def _recvServerHello(self, data):
         self.log.debug("received server hello")
 
+        if self.status != ConnectionStatus.CONNECTING:
+            # the connect attempt is over: it already succeeded, it
+            # timed out (the callback was called with False) or the
+            # user disconnected. a late or repeated server hello must
+            # not open the connection again
+            self.log.warning("ignoring server hello: not connecting")
+            return
+
         try:
             msg = Serializable.loadb(data, server_public_key=self.server_public_key)
         except EllipticCurvePublicKey.InvalidSignature as e:
